@@ -9,9 +9,13 @@
                                          "frag": the packet completes a frame / does not, i.e. the unit has no payload)
                 skipped,                 the harness could not perform it (e.g. no callback to finish)
                 cur,                     Write: ss was the sub-stream initialised last (the current publisher)
-                pay,                     Write: the payload bytes written
-                cbs: << [r, f, pay] >>,  callbacks that BEGAN during this step: reader, the format the
-                                         callback was registered for, the payload bytes it was given
+                pay,                     Write: the content written (payload bytes; NAL lists as len,bytes,len,bytes...)
+                rpay,                    Write: the content of the unit right after WriteUnit returned (= after remuxing; deep copy)
+                cbs: << [r, f, pay, w] >>,  callbacks that BEGAN during this step: reader, the format the callback was
+                                         registered for, the content it was given (deep copy at entry), and w = the number of
+                                         the Write step whose unit object it is (by pointer; 0 = not a unit the harness wrote)
+                rels: << [r, w, pay] >>, callbacks that were RELEASED in this step (they had been blocked at the harness gate
+                                         while further units were written): the content of the unit at that moment
                 disc: [r |-> n],         Reader.OutboundFramesDiscarded() after the step (-1: reader not added yet)
                 incb: [r |-> BOOLEAN],   a callback of r is in progress after the step
                 ret:  [r |-> BOOLEAN]]   Stream.RemoveReader(r) has returned
@@ -34,7 +38,7 @@ IsCurWrite(x) == x.a = "Write" /\ ~x.skipped /\ x.cur
 \* payloads written to f by the current publisher in steps 1..k, in write order
 WrittenTo(t, f, k) ==
     LET idx == SelectSeq([j \in 1..k |-> j], LAMBDA j : IsCurWrite(t.steps[j]) /\ t.steps[j].f = f)
-    IN [i \in 1..Len(idx) |-> t.steps[idx[i]].pay]
+    IN [i \in 1..Len(idx) |-> t.steps[idx[i]].rpay]
 NWritten(t, k) == [f \in Formats |-> Len(WrittenTo(t, f, k))]
 \* position of a payload among the units written to f (0: it is not one of them)
 NumberOf(w, pay) == IF \E i \in 1..Len(w) : w[i] = pay THEN CHOOSE i \in 1..Len(w) : w[i] = pay ELSE 0
@@ -59,6 +63,10 @@ Occ(t, r, k) == NW(t, r, k) - ND(t, r, k) - C(t, r, k)
 MonOK(t, mon) ==
     CASE mon = "OnlyWrittenSubscribed" ->
            \A r \in Readers : OnlyWrittenSubscribed(NWritten(t, N(t)), Delivered(t, r, N(t)), SubsOf(t, r))
+      [] mon = "UnmodifiedAfterRemux" ->      \* got = deep copy when the reader had it, written = deep copy at write time
+           LET got(x) == [got |-> x.pay, written |-> IF x.w \in 1..N(t) THEN t.steps[x.w].rpay ELSE x.pay]
+               all == Flatten([j \in 1..N(t) |-> SelectSeq(t.steps[j].cbs, LAMBDA c : c.w # 0) \o t.steps[j].rels])
+           IN Unmodified([k \in 1..Len(all) |-> got(all[k])])
       [] mon = "InOrderOnce" ->
            \A r \in Readers : InOrderOnce(Delivered(t, r, N(t)))
       [] mon = "Accounted" ->
@@ -75,7 +83,7 @@ MonOK(t, mon) ==
            \A r \in Readers : \A k \in 1..N(t) :
                t.steps[k].ret[r] => \A j \in (k + 1)..N(t) : \A i \in 1..Len(t.steps[j].cbs) : t.steps[j].cbs[i].r # r
 
-Monitors == {"OnlyWrittenSubscribed", "InOrderOnce", "Accounted", "SkipOnlyWhenFull", "AllReceived",
+Monitors == {"OnlyWrittenSubscribed", "UnmodifiedAfterRemux", "InOrderOnce", "Accounted", "SkipOnlyWhenFull", "AllReceived",
              "NoCallbackAfterRemoval"}
 
 RunVerdict(t, ln) ==
